@@ -230,7 +230,9 @@ def run(prop, spec, tier, seed, t0):
         ops = list(gens.generate(prop, "quick", seed)) + bounded(gens.generate(prop, "thorough", seed), 2500000, 15000000, _random.Random(seed))
     else:
         ops = list(gens.generate(prop, tier, seed))
-    if tier == "quick" and ex.get("pins_changed"):
+    # (a changed source pin or a tie that could not be re-read syntactically - `soft` - is not a
+    # failure: the run then also uses a sample of the deep generators)
+    if tier == "quick" and (ex.get("pins_changed") or ex.get("soft")):
         # keep the complete quick stream (it contains every targeted family) and add a random
         # sample of the deep stream
         gen_tier = "quick+deep-sample"
@@ -314,7 +316,7 @@ def run(prop, spec, tier, seed, t0):
         samples=samples or [dict(note="no ops ran")],
         traces_validated_against_impl=stats["agreed"],
         families=stats["families"], strategies_hit=stats.get("strategies", {}), correspondence_disagreements=len(corr),
-        executor_crashes=len(crashes), extractor_broken=ex.get("broken", []),
+        executor_crashes=len(crashes), extractor_broken=ex.get("broken", []), extractor_soft=ex.get("soft", []),
         pins_changed=ex.get("pins_changed", []), generator_tier=gen_tier, search_inputs=searched,
         exhaustive=gens.exhaustive(prop, tier),
     )
